@@ -32,7 +32,11 @@ type verifPair struct {
 }
 
 func verifNewPair(nObjects int, chooseRound bool) *verifPair {
-	p := &verifPair{objs: verifstub.UniverseWithEmpty("inst", nObjects)}
+	return verifNewPairOver(verifstub.UniverseWithEmpty("inst", nObjects), chooseRound)
+}
+
+func verifNewPairOver(objs []verifstub.Object, chooseRound bool) *verifPair {
+	p := &verifPair{objs: objs}
 	p.a = verifstub.NewModel("replica-a", p.objs)
 	p.b = verifstub.NewModel("replica-b", p.objs)
 	ba := NewMirroredBlobAccess(p.a, p.b,
@@ -109,6 +113,16 @@ func Verif_C11_M4_GetRefreshInProgress() {
 	p := verifNewPair(1, true)
 	verifKinds(p, true)
 	vnd.Assume(p.a.BufferKind == verifstub.KindStreamWithTask || p.b.BufferKind == verifstub.KindStreamWithTask)
+	verifGetOnce(ctx, p)
+}
+
+// Verif_C11_M6_GetActionCacheEntries: as M1, for message-backed buffers (what Action
+// Cache replicas return; their clone and background-task implementations differ
+// from the stream-backed ones).
+func Verif_C11_M6_GetActionCacheEntries() {
+	ctx := context.Background()
+	p := verifNewPairOver(verifstub.UniverseProto("inst", 2), true)
+	p.a.BufferKind, p.b.BufferKind = verifstub.KindProto, verifstub.KindProto
 	verifGetOnce(ctx, p)
 }
 
